@@ -933,6 +933,17 @@ def rt_wrap(req):
         for i in reversed(range(depth)):
             hand = 'functools.partial(hand%d, %s)' % (i, hand)
         lines += ['hand = ' + hand]
+    elif placement == 'function_forged':
+        # the decorated function carries a declared forger of its own (forwards_to_function sets _sigtools__forger on it):
+        # the decorator stack must describe itself + that forged signature, exactly as for the plainly defined twin `ref`
+        lines += core.def_source(fparams, name='plain', body=ret).rstrip('\n').split('\n')
+        lines += decos + ['@specifiers.forwards_to_function(plain)', 'def f(*args, **kwargs):', '    return plain(*args, **kwargs)']
+        lines += decos + core.def_source(fparams, name='ref', body=ret).rstrip('\n').split('\n')
+        lines += ['target = f']
+        hand = 'plain'
+        for i in reversed(range(depth)):
+            hand = 'functools.partial(hand%d, %s)' % (i, hand)
+        lines += ['hand = ' + hand]
     elif placement == 'function':
         lines += decos + fdef
         lines += core.def_source(fparams, name='plain', body=ret).rstrip('\n').split('\n')
@@ -965,6 +976,13 @@ def rt_wrap(req):
             isig = inspect.signature(mod.target)
         if str(sig) != str(isig):
             problems.append('inspect-differs: sigtools %s, inspect %s\n%s' % (sig, isig, src))
+        if placement == 'function_forged':
+            with warnings.catch_warnings():
+                warnings.simplefilter('ignore')
+                rsig = sigtools.signature(mod.ref)
+            if str(rsig) != str(sig):
+                problems.append('forged-decorated-differs: the stack over a function with a declared forger reports %s, over its plainly '
+                                'defined twin %s\n%s' % (sig, rsig, src))
         R = [(p.name, core.KIND_NAME[p.kind], None if p.default is p.empty else 1) for p in sig.parameters.values()]
         names = [p[0] for p in fps] + [n for own in own_list for n in own] + ['zz']
         inputs = [[(p[0], p[1], p[2]) for p in fps]] + \
@@ -1235,3 +1253,282 @@ def rt_annot(req):
 
 
 RT['annot'] = rt_annot
+
+
+# ----------------------------------------------------------------------------- C17: one preemption at every sigtools line
+import os as _os
+
+_SIGTOOLS_DIR = _os.path.dirname(_os.path.abspath(sigtools.__file__)) + _os.sep
+_TESTS_DIR = _os.path.join(_SIGTOOLS_DIR, 'tests') + _os.sep
+
+
+def _in_sigtools(fn):
+    fn = _os.path.abspath(fn)
+    return fn.startswith(_SIGTOOLS_DIR) and not fn.startswith(_TESTS_DIR)
+
+
+def _make_emulated_cgi():
+    def make(kind, *, strict=False):
+        return ('table', kind, strict)
+
+    class Table(object):
+        @specifiers.forwards_to_function(make, emulate=True)
+        def __class_getitem__(cls, *args, **kwargs):
+            return (cls.__name__,) + make(*args, **kwargs)
+    return Table
+
+
+def _make_emulated_new():
+    def make(kind, *, strict=False):
+        return ('obj', kind, strict)
+
+    class Obj(object):
+        @specifiers.forwards_to_function(make, emulate=True)
+        def __new__(cls, *args, **kwargs):
+            make(*args, **kwargs)
+            return object.__new__(cls)
+    return Obj
+
+
+class _Service(object):
+    @modifiers.kwoargs('verbose')
+    def run(self, job, priority=0, verbose=False):
+        return (job, priority, verbose)
+
+    @modifiers.posoargs('self', 'job')
+    def pos(self, job, priority=0):
+        return (job, priority)
+
+    @modifiers.autokwoargs
+    def auto(self, job, priority=0):
+        return (job, priority)
+
+
+def _probe_calls(sig, fn, cases):
+    out = []
+    for args, kwargs in cases:
+        try:
+            sig.bind(*args, **kwargs)
+            a = True
+        except TypeError:
+            a = False
+        try:
+            fn(*args, **kwargs)
+            c = True
+        except (TypeError, AttributeError):
+            c = False
+        out.append((a, c))
+    return tuple(out)
+
+
+_PCASES = [((1,), {}), ((1, 2), {}), ((1, 2, 3), {}), ((), {}), ((1,), {'verbose': True}), ((1,), {'priority': 2}),
+           ((1,), {'strict': True}), ((1,), {'zz': 1}), ((), {'kind': 1}), ((), {'job': 1})]
+
+
+def _preempt_scenarios():
+    """name -> (make shared state, what each thread does with it, B's extra (drop references), windowed?)"""
+    from . import scenarios
+
+    def both(get):
+        def do(st):
+            o = get(st)
+            with warnings.catch_warnings():
+                warnings.simplefilter('ignore')
+                return (str(inspect.signature(o)), str(sigtools.signature(o)))
+        return do
+
+    def both_calls(get):
+        def do(st):
+            o = get(st)
+            with warnings.catch_warnings():
+                warnings.simplefilter('ignore')
+                isig = inspect.signature(o)
+                ssig = sigtools.signature(o)
+            return (str(isig), str(ssig), _probe_calls(isig, o, _PCASES))
+        return do
+
+    def svc_state():
+        svc = _Service()
+        return {'svc': svc, 'held': [svc.run, svc.pos, svc.auto]}
+
+    def drop_held(st):
+        del st['held'][:]
+        gc.collect()
+    sc = {
+        # modifiers-wrapped methods: B holds the cached bound wrappers, retrieves too, then lets go of them and collects
+        'pok_method_kwo': (svc_state, both_calls(lambda st: st['svc'].run), drop_held),
+        'pok_method_pos': (svc_state, both_calls(lambda st: st['svc'].pos), drop_held),
+        'pok_method_auto': (svc_state, both_calls(lambda st: st['svc'].auto), drop_held),
+        # objects using as_forged: first-ever access of an emulate=True special method from two threads
+        'emulated_class_getitem': (lambda: {'cls': _make_emulated_cgi()}, both_calls(lambda st: st['cls'].__class_getitem__), None),
+        'emulated_new': (lambda: {'cls': _make_emulated_new()}, both(lambda st: st['cls']), None),
+    }
+    for n in ('as_forged', 'decorated_fn', 'wdecorated_fn', 'declared_emulated', 'method_decorated', 'method_pok', 'pok_fn',
+              'user_forged', 'method_fwd', 'instance_signature'):
+        sc[n] = ((lambda n=n: {'o': scenarios.make()[n]}), both(lambda st: st['o']), None)
+    # functools.wraps functions: their answers are subject to the delete/restore window (finding D6)
+    for n in ('wrapped_fn', 'wrapped_twice'):
+        sc[n] = ((lambda n=n: {'o': scenarios.make()[n]}), both(lambda st: st['o']), None)
+    return sc
+
+
+PREEMPT_SCENARIOS = ('pok_method_kwo', 'pok_method_pos', 'pok_method_auto', 'emulated_class_getitem', 'emulated_new', 'as_forged',
+                     'decorated_fn', 'wdecorated_fn', 'declared_emulated', 'method_decorated', 'method_pok', 'pok_fn', 'user_forged',
+                     'method_fwd', 'instance_signature', 'wrapped_fn', 'wrapped_twice')
+
+
+def rt_preempt(req):
+    """thread A runs a retrieval under sys.settrace and is parked exactly once, before the k-th line it executes inside
+    sigtools code, for every k in the slice; while it is parked thread B runs its whole retrieval on the same shared
+    object (and drops what it held, and collects); then A resumes.  Every hand-over is an Event handshake.  Both must
+    obtain what a lone caller obtains, and afterwards the shared object must still answer the same."""
+    _, name, lo, hi, stride = req
+    make, do, b_extra = _preempt_scenarios()[name]
+    windowed = name in ('wrapped_fn', 'wrapped_twice', 'instance_signature')    # have __wrapped__ / __signature__ to delete and restore
+    try:
+        expected = do(make())
+    except Exception as e:  # noqa
+        return ('ok', ('preempt-alone-raises: scenario %s raises %s when run alone' % (name, type(e).__name__),), 'error')
+    problems, window = [], 0
+    explored = 0
+    k = lo
+    while k < hi:
+        st = make()
+        reached, resume = threading.Event(), threading.Event()
+        out = {}
+        count = [0]
+
+        def local_tracer(frame, event, arg):
+            if event == 'line':
+                count[0] += 1
+                if count[0] == k:
+                    reached.set()
+                    resume.wait(30)
+            return local_tracer
+
+        def global_tracer(frame, event, arg):
+            if event == 'call' and _in_sigtools(frame.f_code.co_filename):
+                return local_tracer
+            return None
+
+        def thread_a():
+            sys.settrace(global_tracer)
+            try:
+                res = ('ok', do(st))
+            except BaseException as e:  # noqa
+                res = ('raised', type(e).__name__, str(e)[:200])
+            finally:
+                sys.settrace(None)
+            out['a'] = res
+            reached.set()
+
+        def thread_b():
+            reached.wait(30)
+            try:
+                out['b'] = ('ok', do(st))
+                if b_extra:
+                    b_extra(st)
+            except BaseException as e:  # noqa
+                out['b'] = ('raised', type(e).__name__, str(e)[:200])
+            finally:
+                resume.set()
+        ta, tb = threading.Thread(target=thread_a, name='A'), threading.Thread(target=thread_b, name='B')
+        ta.start(); tb.start()
+        ta.join(60); tb.join(60)
+        if ta.is_alive() or tb.is_alive():
+            problems.append('preempt-stuck: scenario %s, A parked before its sigtools line #%d: threads did not finish' % (name, k))
+            break
+        if count[0] < k:
+            break           # the retrieval has fewer traced lines than k: every preemption point is explored
+        explored += 1
+        for t in 'ab':
+            if out.get(t) != ('ok', expected):
+                if windowed and out.get(t, ('',))[0] == 'ok':
+                    window += 1
+                else:
+                    problems.append('concurrent-answer: scenario %s, thread A parked before its sigtools line #%d while thread B retrieves: '
+                                    'thread %s got %s, alone it gets %s' % (name, k, t.upper(), out.get(t), expected))
+        try:
+            after = do(st)
+        except BaseException as e:  # noqa
+            after = ('raised', type(e).__name__)
+        if after != expected:
+            problems.append('not-restored: scenario %s after the schedule with A parked at line #%d: the shared object answers %s, before %s' % (
+                name, k, after, expected))
+        if specifiers.as_forged.currently_computing:
+            problems.append('guard-not-empty after the schedule (scenario %s, line #%d)' % (name, k))
+        if len(problems) >= 3:
+            break
+        k += stride
+    if window:
+        problems.append('cleanup-window: %d of the schedules of a functools.wraps function saw it without __wrapped__ (scenario %s)' % (window, name))
+    return ('ok', tuple(problems[:3]), 'explored:%d' % explored)
+
+
+RT['preempt'] = rt_preempt
+
+
+# ----------------------------------------------------------------------------- C18: a forger that cannot answer yet
+def rt_lateattr(req):
+    """the attribute a forwards_to_method declaration names is assigned only after the first retrieval: later retrievals
+    must equal those on a twin that had it from the start, every accepted call must execute, and the instance must be
+    reclaimed once dropped"""
+    _, variant = req
+
+    def egg(a, b=2):
+        return ('egg', a, b)
+    if variant == 'as_forged':
+        class A(object):
+            __signature__ = specifiers.as_forged
+
+            @specifiers.forwards_to_method('egg')
+            def __call__(self, c, *args, **kwargs):
+                return self.egg(*args, **kwargs)
+        get = lambda i: i      # noqa
+    else:
+        class A(object):
+            @specifiers.forwards_to_method('egg', emulate=(variant == 'emulate'))
+            def m(self, c, *args, **kwargs):
+                return self.egg(*args, **kwargs)
+        get = lambda i: i.m    # noqa
+    problems = []
+
+    def retrieve(i):
+        out = []
+        for fn in (inspect.signature, sigtools.signature):
+            try:
+                with warnings.catch_warnings():
+                    warnings.simplefilter('ignore')
+                    out.append(str(fn(get(i))))
+            except Exception as e:  # noqa
+                out.append('raised ' + type(e).__name__)
+        return tuple(out)
+    late = A()
+    first = retrieve(late)           # the forger cannot answer yet
+    late.egg = egg
+    twin = A()
+    twin.egg = egg
+    want = retrieve(twin)
+    got = [retrieve(late) for _ in range(2)]
+    if any(g != want for g in got):
+        problems.append('history-dependent: after a retrieval made before %s.egg was assigned (which gave %s), retrievals give %s; '
+                        'on a twin that had egg from the start %s (variant %s)' % (type(late).__name__, first, got, want, variant))
+    if not want[0].startswith('raised'):
+        sig = inspect.signature(get(late))
+        for a, c in _probe_calls(sig, get(late), [((1,), {}), ((1, 2), {}), ((1, 2, 3), {}), ((1, 2, 3, 4), {}), ((1,), {'b': 1}), ((), {})]):
+            if a and not c:
+                problems.append('signature-unsound: inspect.signature reports %s, which accepts a call that raises TypeError (variant %s)' % (sig, variant))
+                break
+        del sig
+    ref = weakref.ref(late)
+    del late
+    gc.collect()
+    if ref() is not None:
+        problems.append('retained: the instance is still alive after the caller dropped it (variant %s, first retrieval made before egg was assigned)' % variant)
+    if specifiers.as_forged.currently_computing:
+        problems.append('guard-not-empty after the history (variant %s)' % variant)
+        specifiers.as_forged.currently_computing.clear()
+    return ('ok', tuple(problems[:3]), 'lateattr')
+
+
+RT['lateattr'] = rt_lateattr
